@@ -13,8 +13,11 @@ Tie to /repo (C, hand-written model + correspondence):
     non-aliased, out-of-place, shuffled, at least two aliased) with different inputs; every
     call is compared with a freshly built operator and with the model program run from a fresh
     store (the straight-line programs are stateless; this stream ties that to the code);
-  * the set of Operator classes of proximal_operators.py that take `out` is read from the AST
-    and must be covered by the model's class table (and vice versa).
+  * the proximal Operator classes (any file under odl/solvers; name, location or enclosing
+    function mentions `prox`) whose `_call` takes `out` are read from the AST and must be covered
+    by the model's class table (and vice versa); the aliased call sites `f(a, out=a)` of the
+    solver sources are extracted by AST on every run and each callee must be the application of a
+    proximal operator (anything else is an uncovered obligation).
 Oracle (independent of the model, on the real code): P(x) vs y = x.copy(); P(y, out=y) vs
 P(x, out=NaN-filled z); returned object is `out`; x, g, sigma bitwise unchanged.  It is also
 applied to the calculus wrappers (translation, scaling, quadratic perturbation, composition,
@@ -42,16 +45,28 @@ TRUSTED = ['hand-written model programs Model/ProxProg.lean (tied by running the
            'NumPy element-wise ufuncs with out identical to an input are well defined; '
            'space.lincomb obeys its specification (that is property C01)']
 ASSUMPTIONS = ['identity aliasing only (overlapping views of distinct objects are outside C10)',
+               'one NumPy/ODL call reads all its inputs before it writes `out` (ufuncs with out '
+               'identical to an input; space.lincomb = property C01): for the 25 program variants '
+               'whose only write to out is their last statement alias safety IS this assumption plus '
+               'the correspondence test; the theorem has content of its own for the 17 variants '
+               'that write out more than once (box 11, ccL2Sq 11, l2Sq 11, ccL1, l1, l1l2, linfty, '
+               'ccLinfty, ccKL, sumc 0, power)',
                'the _call bodies are stateless: a model program runs from a fresh store with fresh '
                'temporaries; instance state kept between calls is outside the model and is tested by '
                'the history stream (sequences of calls on one instance vs fresh instances)',
-               'element-wise functions, norms, proj_simplex, Lambert-W are uninterpreted in the '
-               'theorems; the driver instantiates them with IEEE double implementations',
+               'element-wise functions, norms, sort / cumsum / argsort of proj_simplex, Lambert-W '
+               'are uninterpreted in the theorems; the driver instantiates them with IEEE double '
+               'implementations; the per-component loops of ProximalHuber / ConvexConjL1L2 / L1L2 '
+               'are merged into one statement on the flattened element',
+               'the Float64 model covers real float64 spaces (rn, uniform_discr, constant / array '
+               'weights, power spaces); complex, float32, 2-d and nested product spaces are covered by '
+               'the oracle only (extra_space_stream)',
                'wrappers built by operator arithmetic are covered by the combinator theorems '
-               '(C10.alias_safe_tree; C10.diagonal_alias_safe for combine_proximals) for leaves that '
-               'satisfy the leaf contract; for leaf classes without a model program the contract is '
-               'only tested; their model-vs-code comparison (trees and DiagonalOperator over proximal '
-               'leaves, aliased mode) is part of the C03 run']
+               '(C10.alias_safe_tree; C10.diagonal_alias_safe for combine_proximals), which are '
+               'conditional on the leaf contract; their model-vs-code comparison (trees and '
+               'DiagonalOperator over proximal leaves, aliased mode) is part of the C03 run, not of '
+               'this one; NuclearNormProximal (out-of-place only) is tested through the default '
+               'bridge, not modelled; proximal classes of odl.contrib are listed, not covered']
 
 NAN_BITS = 0x7ff8000000000000
 
@@ -77,17 +92,20 @@ def flat(x):
     import odl
     if isinstance(x.space, odl.ProductSpace):
         return np.concatenate([flat(p) for p in x])
-    return np.asarray(x.asarray(), dtype=float).ravel(order='C')
+    a = np.asarray(x.asarray())
+    return (a if np.iscomplexobj(a) else a.astype(float)).ravel(order='C')
 
 
 def make_elem(space, vals):
     import odl
-    vals = np.array(vals, dtype=float)  # always a copy: never share memory with the case data
+    vals = np.array(vals)  # always a copy: never share memory with the case data
+    if not np.iscomplexobj(vals):
+        vals = vals.astype(float)
     if isinstance(space, odl.ProductSpace):
         n = len(vals) // len(space)
         return space.element([make_elem(space[i], vals[i * n:(i + 1) * n])
                               for i in range(len(space))])
-    return space.element(vals.reshape(space.shape))
+    return space.element(vals.astype(space.dtype).reshape(space.shape))
 
 
 # ---------------------------------------------------------------------------
@@ -169,6 +187,30 @@ def make_space(kind, rng):
     return odl.ProductSpace(odl.rn(n), mc), n, mc, 1.0
 
 
+ORACLE_ONLY_KINDS = ('cn', 'f32', 'rn2d', 'discr2d', 'cdiscr', 'nested')
+
+
+def make_space_extra(kind, rng):
+    """Spaces inside C10's quantifier that the Float64 model does not cover (complex, float32,
+    2-d, nested products): oracle only."""
+    import odl
+    if kind == 'cn':
+        n = rng.choice([1, 3, 4])
+        return odl.cn(n), n, 1, 1.0
+    if kind == 'f32':
+        n = rng.choice([2, 5])
+        return odl.rn(n, dtype='float32'), n, 1, 1.0
+    if kind == 'rn2d':
+        return odl.rn((2, 3)), 6, 1, 1.0
+    if kind == 'discr2d':
+        sp = odl.uniform_discr([0, 0], [1, 2], (2, 4))
+        return sp, 8, 1, float(sp.cell_volume)
+    if kind == 'cdiscr':
+        sp = odl.uniform_discr(0, 2, 4, dtype='complex128')
+        return sp, 4, 1, float(sp.cell_volume)
+    return odl.ProductSpace(odl.ProductSpace(odl.rn(2), 2), 2), 2, 4, 1.0
+
+
 def const_weight(space):
     """The constant the factories close over (`_const_weight(space)` of the module), read
     from the module when it exists."""
@@ -181,15 +223,22 @@ def build(plan, kind, rng, xclass):
     """Construct the real operator and the model line parameters for one case."""
     import odl
     po = _po()
-    space, n, mc, w = make_space(kind, rng)
+    if isinstance(rng, int):
+        import random
+        rng = random.Random(rng)       # a recorded case seed: the case is rebuilt exactly
+    space, n, mc, w = make_space_extra(kind, rng) if kind in ORACLE_ONLY_KINDS else \
+        make_space(kind, rng)
     N = n * mc
     mid, fl = plan.mid, plan.flags
+    elems = {}
     par = dict(lam=rng.choice([1.0, 0.5, 2.0]), sigma=rng.choice([1.0, 0.5, 2.0, 0.25]),
                gamma=rng.choice([0.5, 1.0, 2.0]), radius=rng.choice([1.0, 0.5, 2.0, 4.0]),
                eps=0.0, cw=const_weight(space), a=rng.choice([2.0, -1.0, 0.5, 0.0, 1.0, -3.0]),
                b=rng.choice([1.0, -2.0, 0.25, 0.0]), p=rng.choice([2.0, 3.0, 0.5, 1.5]))
     bufs = dict(g=None, sig=None, lo=None, up=None)
     x = grid(rng, N)
+    if kind in ('cn', 'cdiscr'):
+        x = x + 1j * grid(rng, N)
     if xclass == 'zero':
         x = np.zeros(N)
     elif xclass == 'large':
@@ -208,9 +257,11 @@ def build(plan, kind, rng, xclass):
         if fl[0] == '1':
             bufs['lo'] = lov
             lower = float(lov[0]) if lo_s else make_elem(space, lov)
+            elems['lo'] = lower
         if fl[1] == '1':
             bufs['up'] = upv
             upper = float(upv[0]) if up_s else make_elem(space, upv)
+            elems['up'] = upper
         P = po.proximal_box_constraint(space, lower=lower, upper=upper)(sigma)
     elif mid in ('l2', 'ccL1', 'ccL1L2', 'l1l2', 'ccKL', 'ccKLCE'):
         g = None
@@ -219,24 +270,30 @@ def build(plan, kind, rng, xclass):
                 gvals = np.abs(gvals) + 0.125
             bufs['g'] = gvals
             g = make_elem(space, gvals)
+            elems['g'] = g
         fac = {'l2': po.proximal_l2, 'ccL1': po.proximal_convex_conj_l1,
                'ccL1L2': po.proximal_convex_conj_l1_l2, 'l1l2': po.proximal_l1_l2,
                'ccKL': po.proximal_convex_conj_kl,
                'ccKLCE': po.proximal_convex_conj_kl_cross_entropy}[mid]
         if mid == 'l2':
             par['eps'] = float(np.finfo(getattr(space, 'dtype', float)).resolution * 10)
-            if xclass == 'thr' and g is None:
-                pass
+            if xclass == 'thr':
+                # exactly on the branch point ||x - g|| = sigma * lam (one non-zero entry)
+                e0 = np.zeros(N)
+                e0[rng.randrange(N)] = sigma * lam * rng.choice([-1.0, 1.0]) / np.sqrt(w)
+                x = (gvals if g is not None else 0) + e0
         P = fac(space, lam=lam, g=g)(sigma)
     elif mid in ('ccL2Sq', 'l2Sq', 'l1'):
         g = None
         if fl[1] == '1':
             bufs['g'] = gvals
             g = make_elem(space, gvals)
+            elems['g'] = g
         s = sigma
         if fl[0] == '1':
             bufs['sig'] = sigvals
             s = make_elem(space, sigvals)
+            elems['sig'] = s
         fac = {'ccL2Sq': po.proximal_convex_conj_l2_squared, 'l2Sq': po.proximal_l2_squared,
                'l1': po.proximal_l1}[mid]
         if mid == 'l1' and xclass == 'thr':
@@ -248,8 +305,12 @@ def build(plan, kind, rng, xclass):
     elif mid == 'linfty':
         par['sigma'] = par['radius']
         P = po.proximal_linfty(space)(par['sigma'])
+        if xclass == 'thr':
+            x = l1_threshold(N, par['sigma'] / par['cw'], rng)   # ||x||_1 = radius exactly
     elif mid == 'ccLinfty':
         P = po.proximal_convex_conj_linfty(space)(sigma)
+        if xclass == 'thr':
+            x = l1_threshold(N, 1.0 / par['cw'], rng)
     elif mid == 'huber':
         P = po.proximal_huber(space, par['gamma'])(sigma)
         if xclass == 'thr':
@@ -285,7 +346,18 @@ def build(plan, kind, rng, xclass):
         # the factory closes over lam * (1 - 10 * resolution): read the value actually used
         par['lam'] = closure_var(P, 'lam', lam)
     return dict(plan=plan, kind=kind, space=space, n=n, mc=mc, w=w, par=par, bufs=bufs, x=x,
-                P=P, xclass=xclass)
+                P=P, xclass=xclass, elems=elems)
+
+
+def l1_threshold(N, r, rng):
+    """x with ||x||_1 == r exactly (r a dyadic rational): r/2, -r/2 on two entries (r on one)."""
+    x = np.zeros(N)
+    if N == 1:
+        x[0] = r * rng.choice([-1.0, 1.0])
+    else:
+        i, j = rng.sample(range(N), 2)
+        x[i], x[j] = r / 2, -r / 2
+    return x
 
 
 def model_line(c, alias, junk):
@@ -303,6 +375,9 @@ def model_line(c, alias, junk):
 
 def same(a, b, tol):
     """compare two float arrays: bitwise (NaN == NaN) or within tolerance"""
+    if np.iscomplexobj(a) or np.iscomplexobj(b):
+        a, b = np.asarray(a, dtype=complex), np.asarray(b, dtype=complex)
+        return same(a.real, b.real, tol) and same(a.imag, b.imag, tol)
     a = np.asarray(a, dtype=float)
     b = np.asarray(b, dtype=float)
     if a.shape != b.shape:
@@ -400,31 +475,92 @@ def oracle(ctx, key, desc, P, x_elem, space, tol, second=None, frames=()):
     return res, problems
 
 
+def _py_files(*rel_dirs):
+    for rel in rel_dirs:
+        root = os.path.join(core.REPO, rel)
+        for d, _, files in os.walk(root):
+            if os.sep + 'test' in d or 'examples' in d:
+                continue
+            for fn in sorted(files):
+                if fn.endswith('.py'):
+                    yield os.path.relpath(os.path.join(d, fn), core.REPO)
+
+
 def module_classes():
-    """Operator classes with an `out` parameter in `_call`, read from the AST."""
-    found = {}
-    files = [('odl/solvers/nonsmooth/proximal_operators.py', None),
-             ('odl/solvers/functional/default_functionals.py', 'Prox')]
-    for rel, name_filter in files:
-        path = os.path.join(core.REPO, rel)
-        with open(path) as f:
-            tree = ast.parse(f.read())
+    """Operator classes that are proximal operators, with whether `_call` takes `out`, read from
+    the AST of EVERY source file under odl/solvers: a class is a proximal class when it lives
+    in proximal_operators.py, or its name contains `Prox`, or it is defined inside a function /
+    property whose name contains `prox`; its bases must name an Operator (any spelling)."""
+    found, where = {}, {}
+
+    def visit(node, rel, in_prox):
+        for child in ast.iter_child_nodes(node):
+            if isinstance(child, (ast.FunctionDef, ast.AsyncFunctionDef)):
+                visit(child, rel, in_prox or 'prox' in child.name.lower())
+            elif isinstance(child, ast.ClassDef):
+                bases = [ast.unparse(b) for b in child.bases]
+                is_op = any(b.split('.')[-1].endswith('Operator') for b in bases)
+                prox_cls = in_prox or 'prox' in child.name.lower() or \
+                    rel.endswith('proximal_operators.py')
+                if is_op and prox_cls:
+                    for fn in child.body:
+                        if isinstance(fn, ast.FunctionDef) and fn.name == '_call':
+                            args = [a.arg for a in fn.args.args] + \
+                                [a.arg for a in fn.args.kwonlyargs]
+                            found[child.name] = ('out' in args)
+                            where[child.name] = '{}:{}'.format(rel, child.lineno)
+                visit(child, rel, in_prox)
+            else:
+                visit(child, rel, in_prox)
+    for rel in _py_files('odl/solvers'):
+        with open(os.path.join(core.REPO, rel)) as f:
+            visit(ast.parse(f.read()), rel, False)
+    contrib = {}
+    for rel in _py_files('odl/contrib'):
+        try:
+            with open(os.path.join(core.REPO, rel)) as f:
+                tree = ast.parse(f.read())
+        except Exception:
+            continue
         for node in ast.walk(tree):
-            if not isinstance(node, ast.ClassDef):
+            if isinstance(node, ast.ClassDef) and 'prox' in node.name.lower():
+                contrib[node.name] = '{}:{}'.format(rel, node.lineno)
+    return found, where, contrib
+
+
+def aliased_call_sites():
+    """`f(a, out=a)` and `f(a.lincomb(...), out=a)` (lincomb returns `a`) in the solver sources,
+    by AST: the calls whose aliasing C10 is about."""
+    sites = []
+    for rel in list(_py_files('odl/solvers')) + list(_py_files('odl/contrib/solvers')):
+        try:
+            with open(os.path.join(core.REPO, rel)) as f:
+                tree = ast.parse(f.read())
+        except Exception:
+            continue
+        for node in ast.walk(tree):
+            if not isinstance(node, ast.Call) or not node.args:
                 continue
-            if not any((isinstance(b, ast.Name) and b.id == 'Operator') for b in node.bases):
+            outs = [k.value for k in node.keywords if k.arg == 'out']
+            if not outs:
                 continue
-            if name_filter and name_filter not in node.name:
-                continue
-            for fn in node.body:
-                if isinstance(fn, ast.FunctionDef) and fn.name == '_call':
-                    args = [a.arg for a in fn.args.args] + [a.arg for a in fn.args.kwonlyargs]
-                    found[node.name] = ('out' in args)
-    return found
+            out_src = ast.unparse(outs[0])
+            a0 = node.args[0]
+            aliased = ast.unparse(a0) == out_src or (
+                isinstance(a0, ast.Call) and isinstance(a0.func, ast.Attribute) and
+                a0.func.attr in ('lincomb', 'assign', 'set_zero') and
+                ast.unparse(a0.func.value) == out_src)
+            if aliased and not isinstance(node.func, ast.Attribute) or \
+                    (aliased and isinstance(node.func, ast.Attribute) and
+                     node.func.attr not in ('divide', 'multiply', 'lincomb', 'maximum', 'minimum',
+                                            'absolute', 'sqrt', 'square', 'sign', 'exp', 'log')):
+                sites.append({'site': '{}:{}'.format(rel, node.lineno),
+                              'callee': ast.unparse(node.func)[:80], 'arg': out_src})
+    return sites
 
 
 def check_class_set(ctx):
-    found = module_classes()
+    found, where, contrib = module_classes()
     names = sorted(found)
     outs = core.run_driver('C10', ['class name=' + nm for nm in names] + ['table'])
     uncovered, bridged = [], []
@@ -451,6 +587,20 @@ def check_class_set(ctx):
             ctx.disagree({'kind': 'class-set', 'class': nm},
                          'class no longer in the module (renamed/removed)', 'model program exists',
                          stream='class-set')
+    # aliased call sites of the solvers: every callee must be the application of a proximal
+    # operator (covered by the programs, alias_safe_tree, diagonal_alias_safe); anything else
+    # applied with out = its own input is an uncovered obligation
+    sites = aliased_call_sites()
+    for st in sites:
+        st['covered'] = bool(__import__('re').search(r'prox', st['callee'], flags=2))
+        if not st['covered'] and 'contrib' not in st['site']:
+            ctx.disagree({'kind': 'aliased-call-site', 'site': st['site'], 'callee': st['callee']},
+                         'a solver applies `{}` with out identical to its input'.format(st['callee']),
+                         'not an application of a proximal operator: no theorem covers it',
+                         stream='aliased-call-site')
+    ctx.extra['aliased_call_sites'] = sites
+    ctx.extra['proximal_class_locations'] = where
+    ctx.extra['contrib_proximal_classes(not modelled, not tested)'] = contrib
     ctx.extra['proximal_classes_in_module'] = names
     ctx.extra['out_of_place_only_classes(default bridge)'] = bridged
     ctx.extra['uncovered_classes'] = uncovered
@@ -458,9 +608,9 @@ def check_class_set(ctx):
 
 def describe(c):
     return {'kind': 'prog', 'id': c['plan'].mid, 'flags': c['plan'].flags, 'space': c['kind'],
-            'n': c['n'], 'mc': c['mc'], 'xclass': c['xclass'],
+            'cseed': c.get('cseed'), 'n': c['n'], 'mc': c['mc'], 'xclass': c['xclass'],
             'par': {k: v for k, v in c['par'].items()},
-            'x': [float(v) for v in c['x']],
+            'x': [str(v) for v in c['x']] if np.iscomplexobj(c['x']) else [float(v) for v in c['x']],
             'bufs': {k: (None if v is None else [float(t) for t in v])
                      for k, v in c['bufs'].items()}}
 
@@ -471,7 +621,8 @@ def run_prog_case(ctx, c, lines, pending):
     space = c['space']
     x_elem = make_elem(space, c['x'])
     second = make_elem(space, c['bufs']['g']) if plan.mid == 'lincombOp' else None
-    res, problems = oracle(ctx, None, None, c['P'], x_elem, space, plan.tol, second)
+    frames = [(nm, e) for nm, e in c.get('elems', {}).items() if hasattr(e, 'space')]
+    res, problems = oracle(ctx, None, None, c['P'], x_elem, space, plan.tol, second, frames)
     desc = describe(c)
     key = 'prox {} flags={} space={} xclass={}'.format(plan.mid, plan.flags or '-', c['kind'],
                                                        c['xclass'])
@@ -536,11 +687,13 @@ def compare_model(ctx, pending, outs):
 # ---------------------------------------------------------------------------
 # wrappers and functional-level proximals: oracle on the real code
 
-def wrapper_cases(ctx, reps):
+def wrapper_cases(ctx, reps, seeds=None):
     import odl
+    import random
     po = _po()
-    rng = ctx.rng
-    for rep in range(reps):
+    for rep in range(reps if seeds is None else len(seeds)):
+        rs = ctx.rng.getrandbits(48) if seeds is None else seeds[rep]
+        rng = random.Random(rs)      # everything of this repetition is a function of `rs`
         for kind in ('rn', 'discr'):
             space, n, mc, w = make_space(kind, rng)
             N = n * mc
@@ -556,6 +709,20 @@ def wrapper_cases(ctx, reps):
                 ('cckl', po.proximal_convex_conj_kl(space, g=space.one())),
                 ('huber', po.proximal_huber(space, 0.5)),
             ]
+            sig_el = make_elem(space, np.array([rng.choice([0.5, 1.0, 2.0]) for _ in range(N)]))
+            for bname, fac in (('l1', po.proximal_l1(space)), ('l2sq g', po.proximal_l2_squared(
+                    space, g=g)), ('ccl2sq', po.proximal_convex_conj_l2_squared(space))):
+                # element-valued step size through the calculus wrappers
+                for wname, mk in (
+                        ('convex_conj[sigma element]', lambda fac=fac: po.proximal_convex_conj(fac)(sig_el)),
+                        ('translation[sigma element]',
+                         lambda fac=fac: po.proximal_translation(fac, yv)(sig_el)),
+                        ('arg_scaling[sigma element]',
+                         lambda fac=fac: po.proximal_arg_scaling(fac, 2.0)(sig_el)),
+                        ('quad_pert[sigma element]',
+                         lambda fac=fac: po.proximal_quadratic_perturbation(fac, 0.5)(sig_el))):
+                    yield ('wrapper {}({}) space={}'.format(wname, bname, kind), mk, space,
+                           grid(rng, N), [('g', g), ('y', yv), ('sigma', sig_el)], rs)
             for bname, fac in bases:
                 wr = [
                     ('convex_conj', lambda: po.proximal_convex_conj(fac)(sig)),
@@ -572,32 +739,35 @@ def wrapper_cases(ctx, reps):
                 ]
                 for wname, mk in wr:
                     yield ('wrapper {}({}) space={}'.format(wname, bname, kind), mk, space,
-                           grid(rng, N), [('g', g), ('y', yv)])
+                           grid(rng, N), [('g', g), ('y', yv)], rs)
             # combine_proximals on a product space
             ps = odl.ProductSpace(space, 2)
             yield ('wrapper combine_proximals(l1,ccl1) space=' + kind,
                    lambda: po.combine_proximals(po.proximal_l1(space),
                                                 po.proximal_convex_conj_l1(space))(sig),
-                   ps, grid(rng, 2 * N), [])
+                   ps, grid(rng, 2 * N), [], rs)
             yield ('wrapper combine_proximals(l2sq g,box) space=' + kind,
                    lambda: po.combine_proximals(po.proximal_l2_squared(space, g=g),
                                                 po.proximal_box_constraint(space, 0, 1))(
                                                     [sig, 2 * sig]),
-                   ps, grid(rng, 2 * N), [('g', g)])
+                   ps, grid(rng, 2 * N), [('g', g)], rs)
 
 
-def functional_cases(ctx, reps):
+def functional_cases(ctx, reps, seeds=None):
     """`.proximal(sigma)` of the functionals of odl.solvers (and of their calculus)."""
     import odl
     S = odl.solvers
-    rng = ctx.rng
-    for rep in range(reps):
+    import random
+    for rep in range(reps if seeds is None else len(seeds)):
+        rs = ctx.rng.getrandbits(48) if seeds is None else seeds[rep]
+        rng = random.Random(rs)
         for kind in ('rn', 'discr'):
             space, n, mc, w = make_space(kind, rng)
             N = n
             g = make_elem(space, np.abs(grid(rng, N)) + 0.25)
             yv = make_elem(space, grid(rng, N))
             ps = odl.ProductSpace(space, 2)
+            mspace = odl.ProductSpace(odl.ProductSpace(space, 2), 2)   # 2x2-matrix valued
             table = [
                 ('L1Norm', lambda: S.L1Norm(space), space),
                 ('L2Norm', lambda: S.L2Norm(space), space),
@@ -622,12 +792,9 @@ def functional_cases(ctx, reps):
                 ('KullbackLeiblerCrossEntropy',
                  lambda: S.KullbackLeiblerCrossEntropy(space, prior=g), space),
                 ('SeparableSum', lambda: S.SeparableSum(S.L1Norm(space), S.L2NormSquared(space)), ps),
-                ('QuadraticForm', lambda: S.QuadraticForm(
-                    operator=odl.ScalingOperator(space, 2.0), vector=yv, constant=1.0), space),
                 ('IndicatorSimplex', lambda: S.IndicatorSimplex(space, 2.0), space),
                 ('IndicatorSumConstraint', lambda: S.IndicatorSumConstraint(space, 2.0), space),
                 ('Huber', lambda: S.Huber(space, 0.5), space),
-                ('MoreauEnvelope', lambda: S.MoreauEnvelope(S.L1Norm(space)), space),
                 ('L1Norm.convex_conj', lambda: S.L1Norm(space).convex_conj, space),
                 ('L2Norm.convex_conj', lambda: S.L2Norm(space).convex_conj, space),
                 ('L2NormSquared.convex_conj', lambda: S.L2NormSquared(space).convex_conj, space),
@@ -635,8 +802,6 @@ def functional_cases(ctx, reps):
                 ('L2Norm.translated', lambda: S.L2Norm(space).translated(yv), space),
                 ('3*L1Norm', lambda: 3.0 * S.L1Norm(space), space),
                 ('L1Norm*2', lambda: S.L1Norm(space) * 2.0, space),
-                ('L1Norm+<y,.>', lambda: S.L1Norm(space) + odl.solvers.QuadraticForm(vector=yv),
-                 space),
                 ('L2NormSquared.translated.convex_conj',
                  lambda: S.L2NormSquared(space).translated(yv).convex_conj, space),
                 ('Huber.convex_conj', lambda: S.Huber(space, 0.5).convex_conj, space),
@@ -644,19 +809,36 @@ def functional_cases(ctx, reps):
                     S.L1Norm(space), quadratic_coeff=0.5, linear_term=yv), space),
                 ('IndicatorBox.translated*2', lambda: S.IndicatorBox(space, 0, 1).translated(yv) * 2.0,
                  space),
+                ('L1Norm*0', lambda: S.L1Norm(space) * 0.0, space),
+                ('0*L1Norm', lambda: 0.0 * S.L1Norm(space), space),
+                ('BregmanDistance(L2NormSquared)', lambda: S.BregmanDistance(
+                    S.L2NormSquared(space), yv, S.L2NormSquared(space).gradient(yv)), space),
+                ('NuclearNorm', lambda: S.NuclearNorm(mspace), mspace),
+                ('NuclearNorm(1,inf)', lambda: S.NuclearNorm(mspace, outer_exp=1,
+                                                             singular_vector_exp=float('inf')), mspace),
+                ('IndicatorNuclearNormUnitBall', lambda: S.IndicatorNuclearNormUnitBall(mspace, outer_exp=1,
+                                                       singular_vector_exp=2), mspace),
             ]
+            def mk_sep():
+                return S.SeparableSum(S.L1Norm(space), S.L2NormSquared(space)).proximal([0.5, 2.0])
+            yield ('functional SeparableSum.proximal[list sigma] space=' + kind, mk_sep, ps,
+                   grid(rng, len(flat(ps.zero()))), [], rs)
             for name, mk, sp in table:
                 for sig in ([rng.choice([0.5, 1.0, 2.0])]):
                     def mkP(mk=mk, sig=sig):
                         return mk().proximal(sig)
-                    xs = sp.size if hasattr(sp, 'size') else N
+                    xs = len(flat(sp.zero()))
                     yield ('functional {}.proximal space={}'.format(name, kind), mkP, sp,
-                           grid(rng, int(xs)), [('g', g), ('y', yv)])
+                           grid(rng, int(xs)), [('g', g), ('y', yv)], rs)
 
 
-def run_oracle_stream(ctx, gen, label):
+def run_oracle_stream(ctx, gen, label, only=None, fixed_x=None):
     unavailable = {}
-    for key, mk, space, xv, frames in gen:
+    for key, mk, space, xv, frames, rs in gen:
+        if only is not None and key != only:
+            continue
+        if fixed_x is not None:
+            xv = np.array(fixed_x, dtype=float)
         try:
             P = mk()
         except Exception as e:  # construction is not C10's question
@@ -673,9 +855,9 @@ def run_oracle_stream(ctx, gen, label):
             ctx.err(st.split(':')[1])
         if problems:
             ctx.violation(key, '; '.join(problems)[:600],
-                          {'kind': label, 'key': key, 'x': [float(v) for v in xv]})
+                          {'kind': label, 'key': key, 'rs': rs, 'x': [float(v) for v in xv]})
         elif st == 'ok':
-            repeated_alias(ctx, key, P, space, len(xv))
+            repeated_alias(ctx, key, P, space, len(xv), rs, label)
     if unavailable:
         ctx.extra.setdefault('not_constructible', {}).update(unavailable)
 
@@ -687,8 +869,10 @@ def prog_stream(ctx, reps):
         for kind in plan.kinds:
             classes = ['gen'] * reps + ['zero', 'large', 'small', 'thr']
             for xclass in classes:
+                cseed = rng.getrandbits(48)
                 try:
-                    c = build(plan, kind, rng, xclass)
+                    c = build(plan, kind, cseed, xclass)
+                    c['cseed'] = cseed
                 except Exception as e:  # noqa
                     ctx.disagree({'kind': 'construct', 'id': plan.mid, 'flags': plan.flags,
                                   'space': kind},
@@ -699,6 +883,45 @@ def prog_stream(ctx, reps):
     return lines, pending
 
 
+def extra_space_stream(ctx, reps):
+    """Every program on the spaces the Float64 model does not cover (complex, float32, 2-d,
+    complex discretisation, nested product): the oracle only."""
+    rng = ctx.rng
+    skipped = {}
+    for plan in plans():
+        if plan.mid in ('simplex', 'sumc') and plan.flags == '1':
+            continue    # array-weighted branch needs an array-weighted space
+        needs_product = plan.kinds == PS
+        for kind in ORACLE_ONLY_KINDS:
+            if needs_product != (kind == 'nested'):
+                continue
+            for rep in range(reps):
+                cseed = rng.getrandbits(48)
+                try:
+                    c = build(plan, kind, cseed, 'gen')
+                    c['cseed'] = cseed
+                except Exception as e:  # noqa: the factory refuses this space
+                    skipped['{}/{}/{}'.format(plan.mid, plan.flags or '-', kind)] = \
+                        '{}: {}'.format(type(e).__name__, str(e)[:60])
+                    break
+                x_elem = make_elem(c['space'], c['x'])
+                second = make_elem(c['space'], c['bufs']['g']) if plan.mid == 'lincombOp' else None
+                frames = [(nm, e) for nm, e in c['elems'].items() if hasattr(e, 'space')]
+                res, problems = oracle(ctx, None, None, c['P'], x_elem, c['space'], True, second,
+                                       frames)
+                st = res['oop'][0]
+                ctx.case(('extra', plan.mid, plan.flags, kind) if st == 'ok' and
+                         np.any(res['oop'][1] != 0) else None)
+                ctx.hit('extra-space/' + kind)
+                if st != 'ok':
+                    ctx.err('extra:' + st.split(':')[1])
+                    skipped['{}/{}/{}'.format(plan.mid, plan.flags or '-', kind)] = st[:80]
+                if problems:
+                    ctx.violation('prox {} flags={} space={} xclass=gen'.format(
+                        plan.mid, plan.flags or '-', kind), '; '.join(problems)[:600], describe(c))
+    ctx.extra['extra_spaces_not_supported'] = skipped
+
+
 # ---------------------------------------------------------------------------
 # history stream: ONE operator instance receives a sequence of calls with different inputs.
 # The straight-line model programs are stateless (every run starts from a fresh store with
@@ -706,71 +929,64 @@ def prog_stream(ctx, reps):
 # sequence is compared with a freshly built operator on the same input and with the model
 # program run from a fresh store.
 
+def history_sequence(ctx, plan, kind, hseed, lines, pending):
+    """One sequence of 5 calls on one instance; everything is a function of `hseed`."""
+    import random
+    rng = random.Random(hseed)
+    cseed = rng.getrandbits(48)
+    try:
+        c = build(plan, kind, cseed, 'gen')
+    except Exception:  # reported by the prog stream
+        return
+    space, P = c['space'], c['P']
+    N = c['n'] * c['mc']
+    modes = ['alias', 'alias', 'junk', 'oop'] + [rng.choice(['alias', 'junk'])]
+    rng.shuffle(modes)
+    ctx.hit('history/{}/{}'.format(plan.mid, plan.flags or '-'))
+    for k, mode in enumerate(modes):
+        scale = rng.choice([1.0, 1.0, 8.0, 0.0625])
+        xk = grid(rng, N) * scale
+        if plan.mid == 'power' and c['par']['p'] not in (2.0, 3.0):
+            xk = np.abs(xk) + 0.125
+        x_elem = make_elem(space, xk)
+        second = make_elem(space, c['bufs']['g']) if plan.mid == 'lincombOp' else None
+        got = call_real(P, x_elem, mode, space, second)
+        # a fresh instance with identical parameters for every comparison (called once)
+        ref_c = build(plan, kind, cseed, 'gen')
+        sec2 = make_elem(space, c['bufs']['g']) if plan.mid == 'lincombOp' else None
+        ref = call_real(ref_c['P'], make_elem(space, xk), 'oop', space, sec2)
+        desc = dict(describe(dict(c, x=xk)), kind='history', hseed=hseed, call=k, mode=mode,
+                    modes=modes)
+        key = 'history {} flags={} space={} call#{} mode={} after={}'.format(
+            plan.mid, plan.flags or '-', kind, k, mode, ','.join(modes[:k]) or '-')
+        nontrivial = ref[0] == 'ok' and np.any(ref[1] != 0) and not np.array_equal(ref[1], xk)
+        ctx.case(('history', plan.mid, plan.flags, kind, mode, k > 0) if nontrivial else None)
+        if ref[0] != 'ok':
+            continue
+        if got[0] != 'ok':
+            ctx.violation(key, 'call on the reused instance raises {} while a fresh '
+                          'instance gives a result'.format(got[0]), desc)
+            continue
+        if not same(got[1], ref[1], True):
+            bad = int(np.argmax(~np.isclose(got[1], ref[1], rtol=1e-9, atol=1e-12,
+                                            equal_nan=True)))
+            ctx.violation(key, 'call {} ({}) on an operator instance that was already '
+                          'called {} differs from a freshly built operator at flat index '
+                          '{}: got {!r}, fresh instance gives {!r}'.format(
+                              k, mode, modes[:k], bad, float(got[1][bad]),
+                              float(ref[1][bad])), desc)
+        if mode != 'oop' and lines is not None:
+            ck = dict(c, x=xk)
+            lines.append(model_line(ck, mode == 'alias', junk_vals(N)))
+            pending.append((ck, desc, mode, got))
+
+
 def history_stream(ctx, reps):
-    rng = ctx.rng
     lines, pending = [], []
     for plan in plans():
         for kind in plan.kinds:
             for rep in range(reps):
-                state = rng.getstate()
-                try:
-                    c = build(plan, kind, rng, 'gen')
-                    after = rng.getstate()
-                    rng.setstate(state)
-                    fresh_c = build(plan, kind, rng, 'gen')   # identical parameters, new instance
-                    rng.setstate(after)
-                except Exception:  # reported by the prog stream
-                    rng.setstate(state)
-                    rng.random()
-                    continue
-                space, P = c['space'], c['P']
-                N = c['n'] * c['mc']
-                modes = ['alias', 'alias', 'junk', 'oop'] + [rng.choice(['alias', 'junk'])]
-                rng.shuffle(modes)
-                ctx.hit('history/{}/{}'.format(plan.mid, plan.flags or '-'))
-                for k, mode in enumerate(modes):
-                    scale = rng.choice([1.0, 1.0, 8.0, 0.0625])
-                    xk = grid(rng, N) * scale
-                    if plan.mid == 'power' and c['par']['p'] not in (2.0, 3.0):
-                        xk = np.abs(xk) + 0.125
-                    x_elem = make_elem(space, xk)
-                    second = make_elem(space, c['bufs']['g']) if plan.mid == 'lincombOp' else None
-                    got = call_real(P, x_elem, mode, space, second)
-                    # a fresh instance for every comparison (it is called exactly once)
-                    st2 = rng.getstate()
-                    rng.setstate(state)
-                    try:
-                        ref_c = build(plan, kind, rng, 'gen')
-                    finally:
-                        rng.setstate(st2)
-                    sec2 = make_elem(space, c['bufs']['g']) if plan.mid == 'lincombOp' else None
-                    ref = call_real(ref_c['P'], make_elem(space, xk), 'oop', space, sec2)
-                    desc = dict(describe(dict(c, x=xk)), kind='history', call=k, mode=mode,
-                                modes=modes)
-                    key = 'history {} flags={} space={} call#{} mode={} after={}'.format(
-                        plan.mid, plan.flags or '-', kind, k, mode, ','.join(modes[:k]) or '-')
-                    nontrivial = ref[0] == 'ok' and np.any(ref[1] != 0) and \
-                        not np.array_equal(ref[1], xk)
-                    ctx.case(('history', plan.mid, plan.flags, kind, mode, k > 0)
-                             if nontrivial else None)
-                    if ref[0] != 'ok':
-                        continue
-                    if got[0] != 'ok':
-                        ctx.violation(key, 'call on the reused instance raises {} while a fresh '
-                                      'instance gives a result'.format(got[0]), desc)
-                        continue
-                    if not same(got[1], ref[1], True):
-                        bad = int(np.argmax(~np.isclose(got[1], ref[1], rtol=1e-9, atol=1e-12,
-                                                        equal_nan=True)))
-                        ctx.violation(key, 'call {} ({}) on an operator instance that was already '
-                                      'called {} differs from a freshly built operator at flat index '
-                                      '{}: got {!r}, fresh instance gives {!r}'.format(
-                                          k, mode, modes[:k], bad, float(got[1][bad]),
-                                          float(ref[1][bad])), desc)
-                    if mode != 'oop':
-                        ck = dict(c, x=xk)
-                        lines.append(model_line(ck, mode == 'alias', junk_vals(N)))
-                        pending.append((ck, desc, mode, got))
+                history_sequence(ctx, plan, kind, ctx.rng.getrandbits(48), lines, pending)
     outs = core.run_driver('C10', lines)
     for (ck, desc, mode, got), ans in zip(pending, outs):
         if not ans.startswith('ok '):
@@ -784,10 +1000,13 @@ def history_stream(ctx, reps):
                          stream='history')
 
 
-def repeated_alias(ctx, key, P, space, n_inputs, frames_unused=None):
+def repeated_alias(ctx, key, P, space, n_inputs, rs, label):
     """Wrappers / functional-level proximals: two more aliased calls with new inputs on the
-    SAME instance, each compared with its own out-of-place result."""
-    rng = ctx.rng
+    SAME instance, each compared with its own out-of-place result. Inputs are a function of
+    (rs, key), so the case can be replayed exactly."""
+    import hashlib
+    import random
+    rng = random.Random(hashlib.sha256('{}:{}'.format(rs, key).encode()).digest())
     for k in range(2):
         xk = grid(rng, n_inputs) * rng.choice([1.0, 8.0, 0.125])
         x_elem = make_elem(space, xk)
@@ -799,7 +1018,21 @@ def repeated_alias(ctx, key, P, space, n_inputs, frames_unused=None):
             ctx.violation(key + ' repeated-alias#{}'.format(k + 2),
                           'aliased call number {} on the same instance differs from P(x): {} vs {}'
                           .format(k + 2, got[1][:6] if got[0] == 'ok' else got[0], ref[1][:6]),
-                          {'kind': 'repeat', 'key': key, 'x': [float(v) for v in xk]})
+                          {'kind': 'repeat', 'label': label, 'key': key, 'rs': rs,
+                           'x': [float(v) for v in xk]})
+
+
+def report_unhit(ctx):
+    expected = ['prog/{}/{}'.format(p.mid, p.flags or '-') for p in plans()] + \
+        ['history/{}/{}'.format(p.mid, p.flags or '-') for p in plans()] + \
+        ['branch/l2/step<1(lincomb)', 'branch/l2/step>=1(set_zero|assign g)',
+         'branch/proj_l1/inside-ball(copy)', 'branch/proj_l1/outside(simplex)']
+    unhit = [b for b in expected if not ctx.branches.get(b)]
+    ctx.extra['unhit_model_branches'] = unhit
+    if unhit and not ctx.quick:
+        ctx.disagree({'kind': 'unhit-model-branch', 'branches': unhit},
+                     'never generated in this run', 'model branch exists',
+                     stream='unhit-model-branch')
 
 
 def run(ctx):
@@ -809,8 +1042,10 @@ def run(ctx):
     outs = core.run_driver('C10', lines)
     compare_model(ctx, pending, outs)
     history_stream(ctx, 1 if ctx.quick else 8)
+    extra_space_stream(ctx, 1 if ctx.quick else 6)
     run_oracle_stream(ctx, wrapper_cases(ctx, 1 if ctx.quick else 10), 'wrapper')
     run_oracle_stream(ctx, functional_cases(ctx, 1 if ctx.quick else 10), 'functional')
+    report_unhit(ctx)
 
 
 def search(ctx, broken):
@@ -842,56 +1077,32 @@ def search(ctx, broken):
 
 
 def replay(ctx, case):
-    import odl
-    if case.get('kind') == 'prog':
-        plan = [p for p in plans() if p.mid == case['id'] and p.flags == case['flags']]
-        if not plan:
-            return None
-        plan = plan[0]
-        # rebuild the same operator from the recorded parameters
-        import random
-        for seed in range(400):
-            c = build(plan, case['space'], random.Random(seed), case['xclass'])
-            if c['n'] == case['n'] and c['mc'] == case['mc']:
-                break
-        else:
-            return None
-        # overwrite with the recorded data by rebuilding through the same path
-        c['x'] = np.array(case['x'], dtype=float)
+    """Re-run exactly the recorded case (its seed determines space, parameters, data, x)."""
+    plan = [p for p in plans() if p.mid == case.get('id') and p.flags == case.get('flags')]
+    sub = core.Ctx('C10', 'quick', 0)
+    if case.get('kind') == 'prog' and plan and case.get('cseed') is not None:
+        c = build(plan[0], case['space'], case['cseed'], case['xclass'])
+        recorded = np.array([complex(v) for v in case['x']]) if c['x'].dtype.kind == 'c' else \
+            np.array(case['x'], dtype=float)
+        if not np.array_equal(np.asarray(c['x']), recorded, equal_nan=True):
+            return 'replay: the rebuilt case differs from the recorded one (harness changed)'
         x_elem = make_elem(c['space'], c['x'])
-        second = make_elem(c['space'], c['bufs']['g']) if plan.mid == 'lincombOp' else None
-        _, problems = oracle(ctx, None, None, c['P'], x_elem, c['space'], plan.tol, second)
+        second = make_elem(c['space'], c['bufs']['g']) if plan[0].mid == 'lincombOp' else None
+        frames = [(nm, e) for nm, e in c['elems'].items() if hasattr(e, 'space')]
+        _, problems = oracle(sub, None, None, c['P'], x_elem, c['space'], plan[0].tol, second,
+                             frames)
         return '; '.join(problems) if problems else None
-    if case.get('kind') in ('history', 'repeat'):
-        import random
-        sub = core.Ctx('C10', 'quick', 0)
-        sub.rng = random.Random(0)
-        if case['kind'] == 'history':
-            try:
-                history_stream(sub, 3)
-            except core.DriverBroken:
-                pass
-            hits = [v for v in sub.violations if v['replay'].get('id') == case.get('id') and
-                    v['replay'].get('flags') == case.get('flags')]
-        else:
-            run_oracle_stream(sub, wrapper_cases(sub, 2), 'wrapper')
-            run_oracle_stream(sub, functional_cases(sub, 2), 'functional')
-            hits = [v for v in sub.violations if v['replay'].get('key') == case.get('key')]
+    if case.get('kind') == 'history' and plan and case.get('hseed') is not None:
+        history_sequence(sub, plan[0], case['space'], case['hseed'], None, None)
+        hits = [v for v in sub.violations if v['replay'].get('call') == case.get('call')] or \
+            sub.violations
         return hits[0]['what'] if hits else None
-    if case.get('kind') in ('wrapper', 'functional'):
-        gen = wrapper_cases(ctx, 3) if case['kind'] == 'wrapper' else functional_cases(ctx, 3)
-        for key, mk, space, xv, frames in gen:
-            if key == case['key']:
-                try:
-                    P = mk()
-                except Exception:
-                    continue
-                xs = np.array(case['x'], dtype=float)
-                if xs.size != xv.size:
-                    xs = xv
-                _, problems = oracle(ctx, key, None, P, make_elem(space, xs), space, True, None,
-                                     frames)
-                if problems:
-                    return '; '.join(problems)
-        return None
+    if case.get('kind') in ('wrapper', 'functional', 'repeat') and case.get('rs') is not None:
+        label = case.get('label', case['kind'])
+        gen = wrapper_cases(sub, 1, seeds=[case['rs']]) if label == 'wrapper' else \
+            functional_cases(sub, 1, seeds=[case['rs']])
+        key = case['key']
+        fixed = case['x'] if case['kind'] != 'repeat' else None
+        run_oracle_stream(sub, gen, label, only=key, fixed_x=fixed)
+        return sub.violations[0]['what'] if sub.violations else None
     return None
